@@ -147,6 +147,11 @@ CHECKS = {
         text="First and second derivatives returned by diff/sdiff are evaluated (Derivative/Subs nodes through numerical differentiation of stand-in functions, which decides the chain rule) and compared with a numerical derivative of the original recipe at complex or real points; diff by an absent symbol must be exactly 0, cached and uncached results eq, mixed partials equal in value. Exploration; the rule table is covered on every run.",
         note="Reference derivatives are accepted only when two precisions agree to 1e-14; tolerance 1e-9. KF-C10-01 (acosh rule wrong for Re u < 0, pinned by the suite) is a listed known finding.",
         variants=["main"]),
+    "C36": dict(
+        engine="hy", technique="property-based testing: generated arithmetic/trigonometric/hyperbolic expressions; metamorphic value oracle for as_numer_denom (n/d), as_real_imag (re + I*im, realness of both parts), rewrite_as_exp/sin/cos, expand_as_exp, trig_to_sqrt and conjugate at generated positive-real or complex points, plus the structural 'no negative exponent on the top level' rule",
+        text="Each transformation's result is evaluated with mpmath at three generated points and compared with the value of the original recipe (conjugate: with its complex conjugate); numerator and denominator must not keep a negative numeric exponent on their top level; re and im must be real-valued at positive real symbol values. Exploration.",
+        note="KF-C36-01 (as_real_imag of a negative base to a non-integer power) and KF-C36-02 (imaginary part of cot, pinned by the suite) are listed known findings with narrow matchers.",
+        variants=["main"]),
 }
 
 NOT_APPLICABLE = {}
